@@ -27,7 +27,8 @@ Inductive skel :=
 (* round 7: non_negative_tucker / initialize_tucker(non_negative=True) with a user init; monotonicity_prox / unimodality_prox *)
 | KNnTuckerN (N sweeps : nat) (normalize : bool) (modes : list nat) | KInitTuckerNnN (N : nat)
 | KMonoProx (dec vec : bool) (rows cols : nat) | KUnimodalProx (vec : bool) (rows cols : nat)
-| KXNnTuckerHalsActiveSet.
+| KXNnTuckerHalsActiveSet
+| KNnTuckerClassFit (N sweeps : nat) (normalize : bool) (modes : list nat).
 
 Definition skeleton (k : skel) : cmd :=
   match k with
@@ -70,6 +71,7 @@ Definition skeleton (k : skel) : cmd :=
   | KMonoProx dec vec rows cols => sk_monotonicity_prox dec vec rows cols
   | KUnimodalProx vec rows cols => sk_unimodality_prox vec rows cols
   | KXNnTuckerHalsActiveSet => Skip      (* an xcmd kind: see xcmd_of *)
+  | KNnTuckerClassFit N sweeps normalize modes => sk_estimator_fit 1 (sk_nn_tucker_gen N sweeps normalize modes) 25
   end.
 
 (* entry points that CATCH exceptions: (pre, try-body, handler, rest) of Model.Effects *)
